@@ -37,6 +37,7 @@ class Lab:
         with self.mdib.context_state_transaction() as mgr:
             st = mgr.mk_context_state(self.proj.map_d['pc'], self.proj.map_c['c1'], set_associated=True)
             apply_tok(st, 0)
+        self._kept_entity = self.mdib.entities.by_handle(self.proj.map_d['pc'])   # kept by the 'application'
 
     def _on_post(self, wire):
         if wire.src == 'provider':
@@ -237,6 +238,28 @@ class Lab:
                     st.update_from_sdc_location(SdcLocation(fac='fac', poc='poc', bed=f'bed_w_{self.tok_n}'))
             return fn
 
+        def w_ctx_newpat():
+            def fn():
+                self.tok_n += 1
+                with m.context_state_transaction() as mgr:
+                    mgr.disassociate_all(conc('pc'))
+                    apply_tok(mgr.mk_context_state(conc('pc'), set_associated=True), self.tok_n)
+            return fn
+
+        def a_entity_touch():
+            # application code that keeps a context entity, refreshes it and prepares changes on it WITHOUT committing
+            def fn():
+                self.tok_n += 1
+                ent = self.__dict__.get('_kept_entity')
+                if ent is None:
+                    ent = self._kept_entity = m.entities.by_handle(conc('pc'))
+                ent.update()
+                apply_tok(ent.descriptor, self.tok_n)
+                for st in ent.states.values():
+                    apply_tok(st, self.tok_n)
+                    st.ContextAssociation = m.data_model.pm_types.ContextAssociation.DISASSOCIATED
+            return fn
+
         def r_ctx(handles):
             def fn():
                 hs = None if handles is None else [proj.map_c.get(h) or conc(h) for h in handles]
@@ -256,6 +279,7 @@ class Lab:
             'P_periodic': p_periodic(),
             'W_rt': w_rt('rt'), 'R_state_rt': r_state(['rt'], 'GetMdState[req]'),
             'L_setloc_a': l_setloc('a'), 'L_setloc_b': l_setloc('b'), 'W_ctx_newloc': w_ctx_newloc(),
+            'W_ctx_newpat': w_ctx_newpat(), 'A_entity_touch': a_entity_touch(),
             'R_descr_dA': r_descr_of(['dA']), 'W_add_dA': w_add('dA', 'vmd'), 'W_del_dA': w_del('dA'),
         }
         return table[name]
@@ -341,9 +365,17 @@ class Lab:
         mver0 = self.mdib.mdib_version
         writes0 = self.mdib._verif_store['writes']   # noqa: SLF001
 
+        conflicts = []
+        sigs = {}
+
         def snap():
             p = self.proj.project(self.mdib)
-            phist[str(p['mver'])] = {k: p[k] for k in ('D', 'S', 'C', 'mver')}
+            entry = {k: p[k] for k in ('D', 'S', 'C', 'mver')}
+            sig = (entry, p['rest'])            # 'rest': digest of everything outside the projected universe
+            old = sigs.setdefault(str(p['mver']), sig)
+            if old != sig and p['mver'] not in conflicts:
+                conflicts.append(p['mver'])     # the MDIB changed although MdibVersion did not
+            phist.setdefault(str(p['mver']), entry)
             ctxhist[str(p['mver'])] = self._ctx_snapshot()
         snap()
         try:
@@ -367,7 +399,7 @@ class Lab:
         executed = [[t, e['op'], e['lock']] for t, e in s.events]
         snap()
         vers = sorted(int(k) for k in ctxhist)
-        return {'mver0': mver0, 'mver_end': self.mdib.mdib_version, 'nwv': self.mdib._verif_store['writes'] - writes0,
+        return {'conflicts': conflicts, 'mver0': mver0, 'mver_end': self.mdib.mdib_version, 'nwv': self.mdib._verif_store['writes'] - writes0,
                 'ctxhist': [dict(ctxhist[str(v)], v=v) for v in vers],
                 'ops': list(names), 'schedule': list(schedule), 'reads': list(self.reads), 'phist': phist,
                 'wire': list(self.wire), 'executed': executed, 'errors': errs, 'txids': list(self.txids), 'txid0': txid0}
